@@ -2,11 +2,11 @@
    Fast.v: derived from the GENERATED definitions by Ltac and proved equal to them for all arguments (Fast.*_eq). *)
 From Coq Require Import ZArith List Extraction ExtrOcamlBasic.
 From MomoCommon Require Import GenPrelude.
-From C16 Require Gen_Log2_64 Gen_Log2_32 Gen_SegSqrt Gen_SegCnst Gen_ArrSqrt Gen_ArrLog Gen_ShiftSqrt Fast SegModel.
+From C16 Require Gen_Log2_64 Gen_Log2_32 Gen_SegSqrt Gen_SegCnst Gen_ArrSqrt Gen_ArrLog Gen_ShiftSqrt Gen_ShiftXSqrt Fast SegModel.
 (* the generated table lookup uses Coq's List.nth; keep OCaml's own List module visible to lib/zutil.ml *)
 Extraction Blacklist List String.
 Separate Extraction
   Fast.log2_64 Fast.log2_32 Fast.sq_seg Fast.sq_idx Fast.sq_cnt Fast.cn_seg Fast.cn_idx Fast.cn_cnt
   SegModel.step SegModel.capacity SegModel.empty SegModel.len SegModel.wstep SegModel.wempty SegModel.stA SegModel.stB
   Gen_ArrSqrt.GetCapacity Gen_ArrSqrt.Reserve Gen_ArrSqrt.ShrinkTo Gen_ArrSqrt.ShrinkFit Gen_ArrSqrt.Clear Gen_ArrSqrt.AddBackCrt
-  Gen_ArrSqrt.SetCountCrt Gen_ArrSqrt.pvDecCount Gen_ArrSqrt.RemoveBack Gen_ArrSqrt.AddBackNogrowCrt Gen_ArrSqrt.pvGetItem Gen_ArrLog.pvDecCount Gen_ShiftSqrt.ShiftInsert Gen_ShiftSqrt.ShiftRemove.
+  Gen_ArrSqrt.SetCountCrt Gen_ArrSqrt.pvDecCount Gen_ArrSqrt.RemoveBack Gen_ArrSqrt.AddBackNogrowCrt Gen_ArrSqrt.pvGetItem Gen_ArrLog.pvDecCount Gen_ShiftSqrt.ShiftInsert Gen_ShiftSqrt.ShiftRemove Gen_ShiftXSqrt.ShiftInsertRange Gen_ShiftXSqrt.ShiftRemoveIf.
